@@ -376,7 +376,7 @@ fn read_bgzf(file: &[u8], mode: BgzfMode) -> (Vec<u8>, End, Option<End>) {
 
 /// An indexed consumer on a cut file: read `warm` bytes, seek to the virtual position `(c, up)` of
 /// the ORIGINAL file, read to the end. The outcome: Err(seek error) or Ok((bytes, end)).
-fn seek_on_cut(pre: &[u8], warm: usize, c: usize, up: u16) -> Result<Result<(Vec<u8>, End), End>, String> {
+fn seek_on_cut(pre: &[u8], warm: usize, c: usize, up: u16, exact_first: bool) -> Result<Result<(Vec<u8>, End), End>, String> {
     let data = pre.to_vec();
     guarded(move || {
         let mut r = bgzf::io::Reader::new(std::io::Cursor::new(data));
@@ -388,6 +388,14 @@ fn seek_on_cut(pre: &[u8], warm: usize, c: usize, up: u16) -> Result<Result<(Vec
         }
         let mut out = vec![];
         let mut buf = [0u8; 4096];
+        if exact_first {
+            // `read_exact` has its own path in the reader (it copies out of the block directly)
+            let mut first = [0u8; 3];
+            match r.read_exact(&mut first) {
+                Ok(()) => out.extend_from_slice(&first),
+                Err(e) => return Ok((out, End::of(&e))),
+            }
+        }
         let end = loop {
             match r.read(&mut buf) {
                 Ok(0) => break End::Eof,
@@ -423,9 +431,9 @@ fn bgzf_seek_cuts(ctx: &mut Ctx, payload: &[u8], ends: &[usize], uends: &[usize]
             if up > 65535 {
                 continue;
             }
-            for warm in [0usize, 1] {
-                ctx.eval(if ends.len() >= 3 { Some(fnv(format!("{case} seek {mi} {up} {warm}").as_bytes())) } else { None });
-                match seek_on_cut(pre, warm, c, up as u16) {
+            for (warm, exact_first) in [(0usize, false), (1, false), (1, true)] {
+                ctx.eval(if ends.len() >= 3 { Some(fnv(format!("{case} seek {mi} {up} {warm} {exact_first}").as_bytes())) } else { None });
+                match seek_on_cut(pre, warm, c, up as u16, exact_first) {
                     Err(p) => ctx.fail("panic:bgzf", format!("bgzf reader panicked in a seek to ({c}, {up}) on a file cut at {k}: {p}"), case.to_string()),
                     Ok(Err(_)) => ctx.bump("bgzf:seek-on-cut:seek-error"),
                     Ok(Ok((got, end))) => {
